@@ -9,7 +9,9 @@ import numpy as np
 
 
 def rng_for(seed, *salt):
-    return np.random.default_rng([int(seed) & 0xFFFFFFFF] + [abs(hash(s)) & 0xFFFFFFFF if not isinstance(s, int) else s for s in salt])
+    """one PRNG per (seed, salt): salts are hashed with crc32 (Python's hash() of strings changes from process to process)"""
+    import zlib
+    return np.random.default_rng([int(seed) & 0xFFFFFFFF] + [zlib.crc32(str(s).encode()) if not isinstance(s, (int, np.integer)) else int(s) & 0xFFFFFFFF for s in salt])
 
 
 # ------------------------------------------------------------------ base triangle meshes
